@@ -564,6 +564,8 @@ def address_only(body, t):
                             continue  # comparison result: a bool
                         if rv['k'] == 'cast' and str(rv.get('ty', '')).strip() in ('usize', 'u64', 'isize', 'i64', 'u128'):
                             continue  # an address as a number: the end of the pointer
+                        if rv['k'] == 'cast' and str(rv.get('ty', '')).replace(' ', '') in ('*const()', '*mut()'):
+                            continue  # a type-erased address (`Arc::as_ptr(..) as *const ()`): nothing to dereference
                         if st['lhs']['l'] not in taint:
                             taint.add(st['lhs']['l'])
                             grew = True
